@@ -77,6 +77,7 @@ Section Inv.
     end.
 
   Record Inv (s : st) : Prop := mkInv {
+    i_fix : cf_fix (t_cfg s) = true;       (* the repaired flushPendingWritesSince *)
     i_wf : wf_hist g (t_blocks s);
     i_R : t_dbRound s <= length (t_blocks s);
     i_pre : pfx (t_blocks s) (t_dbRound s) (t_deltas s);
@@ -187,7 +188,7 @@ Section Inv.
     Inv s -> Full s -> wf_hist g (t_blocks s ++ [d]) -> Inv (set_blocks s (t_blocks s ++ [d])).
   Proof.
     intros s d H HF Hwf. assert (Hd := dbr_le s H). unfold Full in HF.
-    destruct H as [_ HR Hpre Ha Hr Hk Hc Hph Hq].
+    destruct H as [Hfix _ HR Hpre Ha Hr Hk Hc Hph Hq].
     assert (HR' : t_dbRound s <= length (t_blocks s)) by exact HR.
     assert (Hdb : t_dbr s <= length (t_blocks s)) by lia.
     constructor; simpl; try assumption.
@@ -212,14 +213,14 @@ Section Inv.
     t_dbRound s + length (t_deltas s) < length (t_blocks s) ->
     Inv (newblock_mem s d).
   Proof.
-    intros s d H Hn Hl. destruct H as [Hwf HR Hpre Ha Hr Hk Hc Hph Hq].
+    intros s d H Hn Hl. destruct H as [Hfix Hwf HR Hpre Ha Hr Hk Hc Hph Hq].
     assert (Hb := wf_block _ _ Hwf Hl). rewrite Hn in Hb. apply wf_deltab_parts in Hb.
     destruct Hb as [Hna [Hnr [Hnk [Hnc _]]]].
     constructor; simpl; try assumption.
     - now apply (pfx_snoc _ delta_dummy).
-    - unfold IA in *. rewrite map_app. simpl. apply sp_newblock_inv; [exact Neqb_spec|exact Ha|exact Hna].
-    - unfold IR in *. rewrite map_app. simpl. apply sp_newblock_inv; [exact pair_eqb_spec|exact Hr|exact Hnr].
-    - unfold IK in *. rewrite map_app. simpl. apply sp_newblock_inv; [exact bytes_eqb_spec|exact Hk|exact Hnk].
+    - unfold IA in *. rewrite map_app, Hfix. simpl. apply sp_newblock_inv; [exact Neqb_spec|exact Ha|exact Hna].
+    - unfold IR in *. rewrite map_app, Hfix. simpl. apply sp_newblock_inv; [exact pair_eqb_spec|exact Hr|exact Hnr].
+    - unfold IK in *. rewrite map_app, Hfix. simpl. apply sp_newblock_inv; [exact bytes_eqb_spec|exact Hk|exact Hnk].
     - unfold IC in *. rewrite map_app. simpl. apply sp_newblock_inv; [exact Neqb_spec|exact Hc|exact Hnc].
     - unfold phase_ok in *. simpl. rewrite app_length. simpl.
       destruct (t_phase s); [exact Hph| |]; destruct Hph; split; try assumption; lia.
@@ -315,7 +316,7 @@ Section Inv.
   Proof.
     intros s H. unfold commitdb. destruct (t_phase s) as [|off|off] eqn:Ep; [now split| |now split].
     assert (Hp := i_phase s H). unfold phase_ok in Hp. rewrite Ep in Hp. destruct Hp as [Hdbr Hoff].
-    destruct H as [Hwf HR Hpre Ha Hr Hk Hc Hph Hq]. rewrite Hdbr in *.
+    destruct H as [Hfix Hwf HR Hpre Ha Hr Hk Hc Hph Hq]. rewrite Hdbr in *.
     rewrite !firstn_map'.
     destruct (a_commit _ _) as [a'|] eqn:Ea; [|split; [apply inv_set_phase; [constructor; try rewrite Hdbr; assumption|exact Hdbr]|reflexivity]].
     destruct (r_commit _ _) as [r'|] eqn:Er; [|split; [apply inv_set_phase; [constructor; try rewrite Hdbr; assumption|exact Hdbr]|reflexivity]].
@@ -367,7 +368,7 @@ Section Inv.
   Proof.
     intros s H. unfold postcommit. destruct (t_phase s) as [|off|off] eqn:Ep; [eauto|eauto|].
     assert (Hp := i_phase s H). unfold phase_ok in Hp. rewrite Ep in Hp. destruct Hp as [Hdbr Hoff].
-    destruct H as [Hwf HR Hpre Ha Hr Hk Hc Hph Hq]. rewrite Hdbr in *.
+    destruct H as [Hfix Hwf HR Hpre Ha Hr Hk Hc Hph Hq]. rewrite Hdbr in *.
     assert (Hlen : forall (B : Type) (f : delta -> B), 1 <= off <= length (map f (t_deltas s))) by (intros; rewrite map_length; lia).
     assert (Hlen' : forall (B : Type) (f : delta -> B), off <= length (map f (t_deltas s))) by (intros; rewrite map_length; lia).
     assert (Htot := pfx_len _ _ _ _ Hpre HR).
@@ -431,29 +432,34 @@ Section Inv.
     | OQRes rnd a c, RRes x => res_ok s rnd x (ans_res (state_at g (t_blocks s) rnd) a c)
     | OQKv rnd k, RKv x => res_ok s rnd x (ans_kv (state_at g (t_blocks s) rnd) k)
     | OQCre rnd c ct, RCre x => res_ok s rnd x (ans_creator (state_at g (t_blocks s) rnd) c ct)
-    | OQAcct _ _, _ | OQRes _ _ _, _ | OQKv _ _, _ | OQCre _ _ _, _ => False
+    | OSAcct rnd a, RAcct x => res_ok s rnd x (ans_acct (state_at g (t_blocks s) rnd) a)
+    | OSRes rnd a c, RRes x => res_ok s rnd x (ans_res (state_at g (t_blocks s) rnd) a c)
+    | OSKv rnd k, RKv x => res_ok s rnd x (ans_kv (state_at g (t_blocks s) rnd) k)
+    | OQAcct _ _, _ | OQRes _ _ _, _ | OQKv _ _, _ | OQCre _ _ _, _
+    | OSAcct _ _, _ | OSRes _ _ _, _ | OSKv _ _, _ => False
     | _, _ => True
     end.
 
   Lemma inv_query : forall s o, Inv s ->
-    match o with OQAcct _ _ | OQRes _ _ _ | OQKv _ _ | OQCre _ _ _ => True | _ => False end ->
+    match o with OQAcct _ _ | OQRes _ _ _ | OQKv _ _ | OQCre _ _ _
+               | OSAcct _ _ | OSRes _ _ _ | OSKv _ _ => True | _ => False end ->
     Inv (fst (step s o)) /\ Full s = Full (fst (step s o)) /\ out_ok s o (snd (step s o)) /\
     t_blocks (fst (step s o)) = t_blocks s.
   Proof.
     intros s o H Ho. assert (Hpre := i_pre s H).
     destruct o; try contradiction; cbn [step].
-    - destruct (a_lookup _ _ _ _ _ _ _ _) as [x a'] eqn:E. simpl.
-      destruct (sp_lookup_ok _ _ _ _ _ _ _ _ Neqb_spec acct_is_empty_spec _ _ _ _ _ _ _ _ _ _ _ _
+    - destruct (a_lookup _ _ _ _ _ _ _ _ _) as [x y'] eqn:E. simpl.
+      destruct (sp_lookup_ok _ _ _ _ _ _ _ _ Neqb_spec acct_is_empty_spec _ _ _ _ _ _ _ _ _ _ _ _ _
                   (i_a s H) (pfx_is_prefix _ _ d_accts _ _ _ Hpre) E) as [Hi [Hv Ht]].
       split; [apply inv_set_spaces; try assumption; apply H|]. split; [reflexivity|]. split; [|reflexivity].
       unfold res_ok, servable, ans_acct. rewrite state_at_acct. rewrite map_length in Ht. now split.
-    - destruct (r_lookup _ _ _ _ _ _ _ _) as [x r'] eqn:E. simpl.
-      destruct (sp_lookup_ok _ _ _ _ _ _ _ _ pair_eqb_spec res_is_empty_spec _ _ _ _ _ _ _ _ _ _ _ _
+    - destruct (r_lookup _ _ _ _ _ _ _ _ _) as [x y'] eqn:E. simpl.
+      destruct (sp_lookup_ok _ _ _ _ _ _ _ _ pair_eqb_spec res_is_empty_spec _ _ _ _ _ _ _ _ _ _ _ _ _
                   (i_r s H) (pfx_is_prefix _ _ d_res _ _ _ Hpre) E) as [Hi [Hv Ht]].
       split; [apply inv_set_spaces; try assumption; apply H|]. split; [reflexivity|]. split; [|reflexivity].
       unfold res_ok, servable, ans_res. rewrite state_at_res. rewrite map_length in Ht. now split.
-    - destruct (k_lookup _ _ _ _ _ _ _ _) as [x k'] eqn:E. simpl.
-      destruct (sp_lookup_ok _ _ _ _ _ _ _ _ bytes_eqb_spec kv_is_empty_spec _ _ _ _ _ _ _ _ _ _ _ _
+    - destruct (k_lookup _ _ _ _ _ _ _ _ _) as [x y'] eqn:E. simpl.
+      destruct (sp_lookup_ok _ _ _ _ _ _ _ _ bytes_eqb_spec kv_is_empty_spec _ _ _ _ _ _ _ _ _ _ _ _ _
                   (i_k s H) (pfx_is_prefix _ _ d_kv _ _ _ Hpre) E) as [Hi [Hv Ht]].
       split; [apply inv_set_spaces; try assumption; apply H|]. split; [reflexivity|]. split; [|reflexivity].
       unfold res_ok, servable, ans_kv. rewrite state_at_kv. rewrite map_length in Ht. now split.
@@ -467,11 +473,26 @@ Section Inv.
       + intro Hs. destruct (Ht Hs) as [H1 H2]. unfold c_lookup. split.
         * intro Hd. destruct (H1 Hd) as [v Hv']. rewrite Hv'. simpl. eauto.
         * intro Hd. destruct (H2 Hd) as [Hv'|[v Hv']]; rewrite Hv'; simpl; eauto.
+    - destruct (a_lookup _ _ _ _ _ _ _ _ _) as [x y'] eqn:E. simpl.
+      destruct (sp_lookup_ok _ _ _ _ _ _ _ _ Neqb_spec acct_is_empty_spec _ _ _ _ _ _ _ _ _ _ _ _ _
+                  (i_a s H) (pfx_is_prefix _ _ d_accts _ _ _ Hpre) E) as [Hi [Hv Ht]].
+      split; [apply inv_set_spaces; try assumption; apply H|]. split; [reflexivity|]. split; [|reflexivity].
+      unfold res_ok, servable, ans_acct. rewrite state_at_acct. rewrite map_length in Ht. now split.
+    - destruct (r_lookup _ _ _ _ _ _ _ _ _) as [x y'] eqn:E. simpl.
+      destruct (sp_lookup_ok _ _ _ _ _ _ _ _ pair_eqb_spec res_is_empty_spec _ _ _ _ _ _ _ _ _ _ _ _ _
+                  (i_r s H) (pfx_is_prefix _ _ d_res _ _ _ Hpre) E) as [Hi [Hv Ht]].
+      split; [apply inv_set_spaces; try assumption; apply H|]. split; [reflexivity|]. split; [|reflexivity].
+      unfold res_ok, servable, ans_res. rewrite state_at_res. rewrite map_length in Ht. now split.
+    - destruct (k_lookup _ _ _ _ _ _ _ _ _) as [x y'] eqn:E. simpl.
+      destruct (sp_lookup_ok _ _ _ _ _ _ _ _ bytes_eqb_spec kv_is_empty_spec _ _ _ _ _ _ _ _ _ _ _ _ _
+                  (i_k s H) (pfx_is_prefix _ _ d_kv _ _ _ Hpre) E) as [Hi [Hv Ht]].
+      split; [apply inv_set_spaces; try assumption; apply H|]. split; [reflexivity|]. split; [|reflexivity].
+      unfold res_ok, servable, ans_kv. rewrite state_at_kv. rewrite map_length in Ht. now split.
   Qed.
 
   Lemma inv_flush : forall s, Inv s -> Inv (fst (step s OFlush)).
   Proof.
-    intros s H. cbn [step fst]. apply inv_set_spaces; [exact H| | | |apply H].
+    intros s H. cbn [step fst]. rewrite (i_fix s H). apply inv_set_spaces; [exact H| | | |apply H].
     - apply sp_flush_inv; [exact Neqb_spec|apply H].
     - apply sp_flush_inv; [exact pair_eqb_spec|apply H].
     - apply sp_flush_inv; [exact bytes_eqb_spec|apply H].
@@ -479,10 +500,18 @@ Section Inv.
 
   Lemma inv_prune : forall s na nr nk, Inv s -> Inv (fst (step s (OPrune na nr nk))).
   Proof.
-    intros s na nr nk H. cbn [step fst]. apply inv_set_spaces; [exact H| | | |apply H].
+    intros s na nr nk H. cbn [step fst]. rewrite (i_fix s H). apply inv_set_spaces; [exact H| | | |apply H].
     - apply sp_prune_inv; [exact Neqb_spec|apply H].
     - apply sp_prune_inv; [exact pair_eqb_spec|apply H].
     - apply sp_prune_inv; [exact bytes_eqb_spec|apply H].
+  Qed.
+
+  (* a stalled reader's cache write lands, whenever *)
+  Lemma inv_land : forall s sp n, Inv s -> Inv (fst (step s (OLand sp n))).
+  Proof.
+    intros s sp n H. cbn [step fst].
+    destruct sp as [|[|[|sp]]]; [| | |exact H]; apply inv_set_spaces; try exact H; try apply H;
+      apply sp_land_inv; apply H.
   Qed.
 
   (* ---------- reload ---------- *)
@@ -518,7 +547,7 @@ Section Inv.
     assert (Hp := i_phase s H). unfold phase_ok in Hp. rewrite Ep in Hp.
     set (s0 := mkSt (t_cfg s) (t_blocks s) (t_dbr s) (t_dbr s) [] _ _ _ _ None PIdle).
     assert (H0 : Inv s0).
-    { destruct H as [Hwf HR Hpre Ha Hr Hk Hc Hph Hq]. constructor; simpl; try assumption.
+    { destruct H as [Hfix Hwf HR Hpre Ha Hr Hk Hc Hph Hq]. constructor; simpl; try assumption.
       - lia.
       - apply pfx_nil.
       - unfold IA in *. now apply sp_reset_inv in Ha.
@@ -637,15 +666,29 @@ Section Inv.
       split; [exact HF|]. split; [reflexivity|]. split; [exact I|discriminate].
     - destruct (inv_query s (OQAcct rnd a) H I) as [H1 [H2 [H3 H4]]]. cbn [new_blocks]. rewrite app_nil_r.
       split; [exact H1|]. split; [now rewrite <- H2|]. split; [exact H4|]. split; [exact H3|].
-      intros _. cbn [step]. destruct (a_lookup _ _ _ _ _ _ _ _). discriminate.
+      intros _. cbn [step]. destruct (a_lookup _ _ _ _ _ _ _ _ _). discriminate.
     - destruct (inv_query s (OQRes rnd a c) H I) as [H1 [H2 [H3 H4]]]. cbn [new_blocks]. rewrite app_nil_r.
       split; [exact H1|]. split; [now rewrite <- H2|]. split; [exact H4|]. split; [exact H3|].
-      intros _. cbn [step]. destruct (r_lookup _ _ _ _ _ _ _ _). discriminate.
+      intros _. cbn [step]. destruct (r_lookup _ _ _ _ _ _ _ _ _). discriminate.
     - destruct (inv_query s (OQKv rnd k) H I) as [H1 [H2 [H3 H4]]]. cbn [new_blocks]. rewrite app_nil_r.
       split; [exact H1|]. split; [now rewrite <- H2|]. split; [exact H4|]. split; [exact H3|].
-      intros _. cbn [step]. destruct (k_lookup _ _ _ _ _ _ _ _). discriminate.
+      intros _. cbn [step]. destruct (k_lookup _ _ _ _ _ _ _ _ _). discriminate.
     - destruct (inv_query s (OQCre rnd c ctype) H I) as [H1 [H2 [H3 H4]]]. cbn [new_blocks]. rewrite app_nil_r.
       split; [exact H1|]. split; [now rewrite <- H2|]. split; [exact H4|]. split; [exact H3|].
+      intros _. cbn [step snd]. discriminate.
+    - destruct (inv_query s (OSAcct rnd a) H I) as [H1 [H2 [H3 H4]]]. cbn [new_blocks]. rewrite app_nil_r.
+      split; [exact H1|]. split; [now rewrite <- H2|]. split; [exact H4|]. split; [exact H3|].
+      intros _. cbn [step]. destruct (a_lookup _ _ _ _ _ _ _ _ _). discriminate.
+    - destruct (inv_query s (OSRes rnd a c) H I) as [H1 [H2 [H3 H4]]]. cbn [new_blocks]. rewrite app_nil_r.
+      split; [exact H1|]. split; [now rewrite <- H2|]. split; [exact H4|]. split; [exact H3|].
+      intros _. cbn [step]. destruct (r_lookup _ _ _ _ _ _ _ _ _). discriminate.
+    - destruct (inv_query s (OSKv rnd k) H I) as [H1 [H2 [H3 H4]]]. cbn [new_blocks]. rewrite app_nil_r.
+      split; [exact H1|]. split; [now rewrite <- H2|]. split; [exact H4|]. split; [exact H3|].
+      intros _. cbn [step]. destruct (k_lookup _ _ _ _ _ _ _ _ _). discriminate.
+    - (* Land *) split; [now apply inv_land|]. cbn [new_blocks]. rewrite app_nil_r.
+      assert (Hsame : Full (fst (step s (OLand space n))) /\ t_blocks (fst (step s (OLand space n))) = t_blocks s).
+      { cbn [step fst]. destruct space as [|[|[|sp]]]; split; try reflexivity; exact HF. }
+      destruct Hsame as [Hs1 Hs2]. split; [exact Hs1|]. split; [exact Hs2|]. split; [exact I|].
       intros _. cbn [step snd]. discriminate.
   Qed.
 
@@ -683,10 +726,10 @@ Proof.
   destruct (N.eqb a a0); [reflexivity|apply IH].
 Qed.
 
-Lemma inv_init : forall c gen, Inv (genesis_world gen) (init c gen) /\ Full (init c gen).
+Lemma inv_init : forall c gen, cf_fix c = true -> Inv (genesis_world gen) (init c gen) /\ Full (init c gen).
 Proof.
-  intros c gen. split; [|reflexivity].
-  constructor; simpl; try reflexivity; try lia; try exact I.
+  intros c gen Hfix. split; [|reflexivity].
+  constructor; simpl; try reflexivity; try lia; try exact I; try exact Hfix.
   - constructor; simpl; [apply mods_ok_nil|apply cinv_empty|intro; reflexivity|].
     intro k. unfold ks_state. simpl. apply acct_table_get.
   - constructor; simpl; [apply mods_ok_nil|apply cinv_empty|intro; reflexivity|]. reflexivity.
@@ -698,11 +741,11 @@ Qed.
 Definition reach (c : cfg) (gen : list (addr * acct)) (ops : list op) : st := fst (run (init c gen) ops).
 
 Lemma reach_inv : forall c gen ops,
-  wf_hist (genesis_world gen) (history_of ops) ->
+  cf_fix c = true -> wf_hist (genesis_world gen) (history_of ops) ->
   Inv (genesis_world gen) (reach c gen ops) /\ Full (reach c gen ops) /\
   t_blocks (reach c gen ops) = history_of ops.
 Proof.
-  intros c gen ops Hwf. destruct (inv_init c gen) as [H HF].
+  intros c gen ops Hfix Hwf. destruct (inv_init c gen Hfix) as [H HF].
   apply (inv_run (genesis_world gen) ops (init c gen) H HF Hwf).
 Qed.
 
@@ -713,23 +756,28 @@ Definition spec_out (g : world) (h : list delta) (q : op) : out :=
   | OQRes rnd a c => RRes (LOk (ans_res (state_at g h rnd) a c))
   | OQKv rnd k => RKv (LOk (ans_kv (state_at g h rnd) k))
   | OQCre rnd c ct => RCre (LOk (ans_creator (state_at g h rnd) c ct))
+  | OSAcct rnd a => RAcct (LOk (ans_acct (state_at g h rnd) a))
+  | OSRes rnd a c => RRes (LOk (ans_res (state_at g h rnd) a c))
+  | OSKv rnd k => RKv (LOk (ans_kv (state_at g h rnd) k))
   | _ => RDone
   end.
 Definition is_query (q : op) : Prop :=
-  match q with OQAcct _ _ | OQRes _ _ _ | OQKv _ _ | OQCre _ _ _ => True | _ => False end.
+  match q with OQAcct _ _ | OQRes _ _ _ | OQKv _ _ | OQCre _ _ _
+             | OSAcct _ _ | OSRes _ _ _ | OSKv _ _ => True | _ => False end.
 Definition q_rnd (q : op) : nat :=
-  match q with OQAcct r _ | OQRes r _ _ | OQKv r _ | OQCre r _ _ => r | _ => 0 end.
+  match q with OQAcct r _ | OQRes r _ _ | OQKv r _ | OQCre r _ _
+             | OSAcct r _ | OSRes r _ _ | OSKv r _ => r | _ => 0 end.
 Definition out_is_ok (r : out) : Prop :=
   match r with RAcct (LOk _) | RRes (LOk _) | RKv (LOk _) | RCre (LOk _) => True | _ => False end.
 Definition out_is_retry (r : out) : Prop :=
   match r with RAcct LRetry | RRes LRetry | RKv LRetry | RCre LRetry => True | _ => False end.
 
 Lemma lookup_correct_lemma : forall c gen ops q,
-  wf_hist (genesis_world gen) (history_of ops) -> is_query q ->
+  cf_fix c = true -> wf_hist (genesis_world gen) (history_of ops) -> is_query q ->
   out_is_ok (snd (step (reach c gen ops) q)) ->
   snd (step (reach c gen ops) q) = spec_out (genesis_world gen) (history_of ops) q.
 Proof.
-  intros c gen ops q Hwf Hq Hok. destruct (reach_inv c gen ops Hwf) as [H [HF Hb]].
+  intros c gen ops q Hfix Hwf Hq Hok. destruct (reach_inv c gen ops Hfix Hwf) as [H [HF Hb]].
   destruct (inv_query (genesis_world gen) _ q H Hq) as [_ [_ [Ho _]]].
   destruct q; try contradiction; cbn [out_ok] in Ho; rewrite Hb in Ho;
     destruct (snd (step _ _)) as [| |x|x|x|x];
@@ -752,14 +800,14 @@ Proof.
 Qed.
 
 Lemma lookup_total_lemma : forall c gen ops q,
-  wf_hist (genesis_world gen) (history_of ops) -> is_query q ->
+  cf_fix c = true -> wf_hist (genesis_world gen) (history_of ops) -> is_query q ->
   servable (reach c gen ops) (q_rnd q) ->
   match t_phase (reach c gen ops) with
   | PCommitted _ => out_is_ok (snd (step (reach c gen ops) q)) \/ out_is_retry (snd (step (reach c gen ops) q))
   | _ => out_is_ok (snd (step (reach c gen ops) q))
   end.
 Proof.
-  intros c gen ops q Hwf Hq Hs. destruct (reach_inv c gen ops Hwf) as [H [HF Hb]].
+  intros c gen ops q Hfix Hwf Hq Hs. destruct (reach_inv c gen ops Hfix Hwf) as [H [HF Hb]].
   destruct (inv_query (genesis_world gen) _ q H Hq) as [_ [_ [Ho _]]].
   assert (Hp := i_phase _ _ H).
   destruct q; try contradiction; cbn [out_ok q_rnd] in Ho, Hs;
@@ -791,28 +839,29 @@ Qed.
 
 (* ---------- corollaries stated by props/C08.v ---------- *)
 Lemma schedule_independent_lemma : forall c1 c2 gen ops1 ops2 q,
+  cf_fix c1 = true -> cf_fix c2 = true ->
   history_of ops1 = history_of ops2 ->
   wf_hist (genesis_world gen) (history_of ops1) -> is_query q ->
   out_is_ok (snd (step (reach c1 gen ops1) q)) -> out_is_ok (snd (step (reach c2 gen ops2) q)) ->
   snd (step (reach c1 gen ops1) q) = snd (step (reach c2 gen ops2) q).
 Proof.
-  intros c1 c2 gen ops1 ops2 q Hh Hwf Hq H1 H2.
-  rewrite (lookup_correct_lemma c1 gen ops1 q Hwf Hq H1).
-  rewrite Hh in Hwf. rewrite (lookup_correct_lemma c2 gen ops2 q Hwf Hq H2). now rewrite Hh.
+  intros c1 c2 gen ops1 ops2 q Hf1 Hf2 Hh Hwf Hq H1 H2.
+  rewrite (lookup_correct_lemma c1 gen ops1 q Hf1 Hwf Hq H1).
+  rewrite Hh in Hwf. rewrite (lookup_correct_lemma c2 gen ops2 q Hf2 Hwf Hq H2). now rewrite Hh.
 Qed.
 
 Lemma no_panic_reach : forall c gen ops,
-  wf_hist (genesis_world gen) (history_of ops) -> enabled_run (init c gen) ops ->
+  cf_fix c = true -> wf_hist (genesis_world gen) (history_of ops) -> enabled_run (init c gen) ops ->
   Forall (fun r => r <> RPanic) (snd (run (init c gen) ops)).
 Proof.
-  intros c gen ops Hwf He. destruct (inv_init c gen) as [H HF].
+  intros c gen ops Hfix Hwf He. destruct (inv_init c gen Hfix) as [H HF].
   now apply (no_panic_run (genesis_world gen) ops (init c gen) H HF).
 Qed.
 
 (* in a reachable state the DB never lags behind memory and a prepared / committed range is
    inside the in-memory deltas *)
 Lemma reach_phase : forall c gen ops,
-  wf_hist (genesis_world gen) (history_of ops) ->
+  cf_fix c = true -> wf_hist (genesis_world gen) (history_of ops) ->
   let s := reach c gen ops in
   match t_phase s with
   | PIdle => t_dbr s = t_dbRound s
@@ -820,6 +869,6 @@ Lemma reach_phase : forall c gen ops,
   | PCommitted off => t_dbr s = t_dbRound s + off /\ 1 <= off <= length (t_deltas s)
   end /\ t_dbRound s + length (t_deltas s) = length (history_of ops).
 Proof.
-  intros c gen ops Hwf. destruct (reach_inv c gen ops Hwf) as [H [HF Hb]]. simpl.
+  intros c gen ops Hfix Hwf. destruct (reach_inv c gen ops Hfix Hwf) as [H [HF Hb]]. simpl.
   split; [exact (i_phase _ _ H)|]. unfold Full in HF. now rewrite <- Hb.
 Qed.
